@@ -237,6 +237,17 @@ func campaignC18(p *Parser, req *Request, resp *Response) {
 				add("not-bounded", fmt.Sprintf("client %d call %d did not return within the step cap under this schedule although it does alone", i, j), nil)
 				continue
 			}
+			if now := r.ValueNow(); now != r.Value {
+				add("returned-value-changed-later", fmt.Sprintf("client %d call %d returned %s; after the other calls of the schedule had run, the value the caller kept reads %s", i, j, clip(r.Value, 200), clip(now, 200)), nil)
+				continue
+			}
+			if now := r.ErrTextNow(); now != r.ErrText && r.Escaped == "" {
+				add("returned-error-changed-later", fmt.Sprintf("client %d call %d returned the error %q; after the other calls of the schedule had run, the error the caller kept reads %q", i, j, clip(r.ErrText, 300), clip(now, 300)), nil)
+				continue
+			}
+			if r.InputTailModified {
+				add("caller-memory-modified", fmt.Sprintf("client %d call %d: Parse wrote behind the input slice it was given; inputs that are windows on one buffer (records of a read buffer parsed side by side) then overwrite each other", i, j), nil)
+			}
 			if r.OptsModified {
 				add("caller-options-modified", fmt.Sprintf("client %d call %d: Parse wrote into the spare capacity of the option slice it was given; two goroutines whose option lists share one array (common := make([]Option, 0, 8); strict := append(common, x); one goroutine parses with common..., the other with strict...) then race on it and lose options", i, j), nil)
 				break
@@ -251,4 +262,11 @@ func campaignC18(p *Parser, req *Request, resp *Response) {
 		}
 	}
 	resp.Sample = map[string]any{"parser": p.Name, "flags": p.Flags, "clients": len(clients), "sched": sc, "pool": req.Pool, "switches": switches, "interaction_trace_len": len(tr)}
+}
+
+func clip(s string, n int) string {
+	if len(s) > n {
+		return s[:n] + "..."
+	}
+	return s
 }
